@@ -115,7 +115,7 @@ def c15(tier):
 
 
 def c03(tier):
-    combos = [(0, 1), (1, 1), (1, 2), (2, 1)] if tier == "quick" else [(0, 1), (1, 1), (1, 2), (1, 3), (2, 1), (2, 2), (3, 1)]
+    combos = [(0, 1), (1, 1), (1, 2), (2, 1)] if tier == "quick" else [(0, 1), (1, 1), (1, 2), (1, 3), (2, 1), (2, 2)]
     jobs = [Job("h_pack::pack_roundtrip", c, {"hash_order": "two"}, budget_s=3000, validate=40) for c in combos]
     s2 = [(4, 1, 0), (4, 2, 0), (4, 2, 1)] if tier == "quick" else [(4, 1, 0), (4, 2, 0), (4, 2, 1), (6, 3, 0), (8, 2, 1), (12, 1, 1)]
     for c in s2:
